@@ -315,7 +315,9 @@ def _no_time_has_passed(p, K, m=None):
     for c, taken, inst in p.conds:
         cc = c
         # strip only value-preserving wrappers of the whole comparison (not of its operands)
-        while cc[0] == "cast" and cc[1] in ("zext", "sext"):
+        while cc[0] == "cast" and (cc[1] in ("zext", "sext") or (
+                cc[1] == "trunc" and cc[3] == 1 and cc[4][0] == "cast" and cc[4][1] == "zext" and cc[4][2] == 1)):
+            # (also a Boolean kept in a `bool` local: trunc-to-i1 of the zext of an i1 is that i1)
             cc = cc[4]
         if cc[0] != "icmp" or cc[1] not in ("eq", "ne") or (cc[1] == "eq") != bool(taken):
             continue
